@@ -230,6 +230,34 @@ CLAIMS = {
         "Trusted: Coq kernel; extraction + driver; the measured table. Axioms: none.",
         "6 (C08)",
     ),
+    "C04": (
+        "Coq proofs for every parameter list (inspect.signature view of the emitted function = the description; argparse "
+        "parse_args([]) yields the described defaults when every option is Optional; refutation otherwise) + exec() of every "
+        "emitted source with CPython as the oracle",
+        "C04_function_signature: for every parameter list the signature CPython builds from the emitted (args, defaults) has the "
+        "described names in order, each with its described default (None where none is described). C04_argparse_defaults_partial / "
+        "C04_argparse_refuted_required: the argparse action table (type, choices, default, required -- measured, compared with a "
+        "live ArgumentParser each run) yields the described defaults on parse_args([]) iff no option is registered required, and a "
+        "non-Optional parameter WITH a default is registered required=True (known finding). Every generated IR of the executable "
+        "domain is emitted as class, pydantic-shaped class, function (kw-only / positional) and argparse function in 3 docstring "
+        "styles x emit_default_doc, compiled, exec()ed, and the live attributes / annotations / signature / actions / parse_args([]) "
+        "compared with the description; unparse-reparse of the AST is checked. Class attribute and annotation semantics are observed, "
+        "not modelled: partial.",
+        "Trusted: Coq kernel; extraction + driver; CPython as executor/oracle. Axioms: none.",
+        "6 (C04)",
+    ),
+    "C05": (
+        "Coq proof over all column lists that primary-key inference leaves exactly one [PK]; correspondence with "
+        "ensure_has_primary_key; agreement of the three emissions, primary_key count and round trip evaluated on the implementation",
+        "C05_one_pk: for every list of distinct column names/descriptions with at most one [PK] marker and both force_pk_id values, "
+        "ensure_has_primary_key (run by all three emitters) leaves exactly one marker -- proved of a transcription compared with "
+        "the code on every generated IR. Column construction and the parsers are not modelled: for SQL-representable IRs x 3 variants x "
+        "3 docstring styles x force_pk_id the check counts primary_key=True Columns in each emitted source (must be 1), parses the "
+        "three emissions back and requires identical columns (hybrid read through its __table__: its own parser fails on the pinned "
+        "tree), and compares each with the description, differences matched per class against known findings: partial.",
+        "Trusted: Coq kernel; extraction + driver; harness. Axioms: none.",
+        "6 (C05)",
+    ),
 }
 
 NOT_YET = "check not built yet in this development (DESIGN.md section 8 gives the order of work)"
